@@ -115,6 +115,15 @@ CHECKS["C13"] = dict(
     design="DESIGN.md section 3 / C13",
 )
 
+CHECKS["C04"] = dict(
+    technique="abstract interpretation of SVG._stroke and stroke_commands over symbolic paints/opacities/dash arrays, statement-order check of the stroke step in _simplify, table comparison of cap/join maps, argument-position checks against callee signatures",
+    text="The outline geometry is Skia's. Decided: the stroke is computed on the untransformed path before transform and clip, the fill/stroke split "
+         "moves opacity products, paints, rules, ids and geometry exactly as specified on every path (symbolic values, so for all shapes), dash arrays "
+         "are parsed per SVG with odd-length repetition, and each stroke parameter reaches Skia under its own name, unmodified, in signature order.",
+    note="Not applicable: the covered region near caps/joins/dash ends, Skia's 0.25-unit resolution. Trusted: skia-pathops Path.stroke signature.",
+    design="DESIGN.md section 3 / C04",
+)
+
 NOT_APPLICABLE = {}
 
 
